@@ -107,30 +107,8 @@ theorem C03_week_from_ordinal (m : Mode) (y doy : Int) (h : Spec.ValidOrd m y do
 /-- All six directions at once: re-expressing a valid date in representation `k` succeeds, gives
     a valid date of that representation, denoting the same day. -/
 theorem C03_convert (m : Mode) (k : Nat) (hk : k < 3) (dt : Spec.Date) (h : dt.Valid m) :
-    ∃ r, convert m k dt = some r ∧ r.Valid m ∧ r.rep = k ∧ r.dayNum m = dt.dayNum m := by
-  have hk' : k = 0 ∨ k = 1 ∨ k = 2 := by omega
-  rcases hk' with rfl | rfl | rfl <;> cases dt with
-  | cal y mo d =>
-    first
-    | exact ⟨_, rfl, h, rfl, rfl⟩
-    | (obtain ⟨doy, he, hv, hn⟩ := ordFromCal_spec m y mo d h
-       exact ⟨.ord y doy, by simp [convert, he], hv, rfl, hn⟩)
-    | (obtain ⟨wy, w, wd, he, hv, hn⟩ := weekFromCal_spec m y mo d h
-       exact ⟨.week wy w wd, by simp [convert, he], hv, rfl, hn⟩)
-  | ord y doy =>
-    first
-    | exact ⟨_, rfl, h, rfl, rfl⟩
-    | (obtain ⟨mo, d, he, hv, hn⟩ := calFromOrd_spec m y doy h
-       exact ⟨.cal y mo d, by simp [convert, he], hv, rfl, hn⟩)
-    | (obtain ⟨wy, w, wd, he, hv, hn⟩ := weekFromOrd_spec m y doy h
-       exact ⟨.week wy w wd, by simp [convert, he], hv, rfl, hn⟩)
-  | week y w d =>
-    first
-    | exact ⟨_, rfl, h, rfl, rfl⟩
-    | (obtain ⟨cy, mo, cd, he, hv, hn⟩ := calFromWeek_spec m y w d h
-       exact ⟨.cal cy mo cd, by simp [convert, he], hv, rfl, hn⟩)
-    | (obtain ⟨oy, doy, he, hv, hn⟩ := ordFromWeek_spec m y w d h
-       exact ⟨.ord oy doy, by simp [convert, he], hv, rfl, hn⟩)
+    ∃ r, convert m k dt = some r ∧ r.Valid m ∧ r.rep = k ∧ r.dayNum m = dt.dayNum m :=
+  convert_spec m k hk dt h
 
 /-- A valid date is determined by its representation and the day it denotes. -/
 theorem C03_valid_date_unique (m : Mode) (a b : Spec.Date) (ha : a.Valid m) (hb : b.Valid m)
